@@ -283,10 +283,10 @@ Fixpoint group_cats (ts : list (unk_tpl * node)) (seen : list N) : list N :=
   | [] => rev seen
   | (u, _) :: t => if existsb (N.eqb (u_cat u)) seen then group_cats t seen else group_cats t (u_cat u :: seen)
   end.
-Definition LENGTH_CLAMP : Z := 1000.   (* probes are far shorter; keeps `nat` small *)
+Definition LENGTH_CLAMP : Z := 1000.   (* no longer needed: Model/Oov.v keeps the length in N *)
 Definition to_oov_model (cats : list catinfo) (ts : list (unk_tpl * node)) : Oov.mecab :=
   Oov.mkMecab
-    (map (fun ci => Oov.mkCI (ci_cat ci) (ci_invoke ci) (ci_group ci) (Z.to_nat (Z.min (ci_length ci) LENGTH_CLAMP))) cats)
+    (map (fun ci => Oov.mkCI (ci_cat ci) (ci_invoke ci) (ci_group ci) (Z.to_N (ci_length ci))) cats)
     (map (fun c => (c, map (fun p => oovdef_of (snd p)) (filter (fun p => u_cat (fst p) =? c) ts))) (group_cats ts [])).
 
 (* error kind codes shared with the harness:
